@@ -288,6 +288,72 @@ def rule_D(ck, units):
             ck.extra['product_sites'] = len(sites)
 
 
+def _row_loop_matrix(f, L):
+    """for (j = X.ptr[i], ...): (decl id, name) of X, else None"""
+    init = L.get('init')
+    if init is None:
+        return None
+    for n in walk(init):
+        if n['k'] != 'decl':
+            continue
+        for v in n['v']:
+            e = unwrap(v['init']) if v.get('init') is not None else None
+            if e is not None and e['k'] == 'idx':
+                b = unwrap(e['b'])
+                if b is not None and b['k'] == 'mem' and b['n'] == 'ptr':
+                    base = unwrap(b['b'])
+                    while base is not None and base['k'] == 'un' and base['op'] == '*':
+                        base = unwrap(base['e'])
+                    if base is not None and base['k'] == 'ref':
+                        return base['d'], base['n']
+    return None
+
+
+def rule_E(ck, units, floor=4):
+    """E.row-sums-cover-remote: a distributed matrix row lives in two CRS parts, X_loc (columns owned by this rank) and X_rem (ghost
+    columns).  A per-row quantity accumulated over the entries of X_loc (`t += ...` in `for (j = X_loc.ptr[i]; ...)`, t declared
+    outside the loop) is accumulated over the entries of X_rem as well - unless the accumulation is restricted to the diagonal entry
+    (`if (col == i) t += ...`), which is always local."""
+    ck.rule('E.row-sums-cover-remote', 'a per-row accumulator summed over the local part X_loc of a distributed matrix row is also summed over the remote part X_rem of that row '
+                                       '(exception: accumulation guarded by a pure diagonal test)', floor)
+    seen = set()
+    for u in units.values():
+        for f in u.funcs:
+            if f.body is None or not f.rel().startswith('amgcl/mpi') or (f.file, f.line) in seen:
+                continue
+            seen.add((f.file, f.line))
+            acc = {}
+            for L in f.nodes.values():
+                if L['k'] != 'for':
+                    continue
+                m = _row_loop_matrix(f, L)
+                if m is None:
+                    continue
+                decl_in = {v['d'] for x in walk(L) if x['k'] == 'decl' for v in x['v']}
+                for n in walk(L['b']):
+                    if n['k'] in ('bin', 'opcall') and n.get('op') in ('+=', '-=') and n.get('x') is not None:
+                        x = unwrap(n['x'])
+                        if x is not None and x['k'] == 'ref' and x['d'] not in decl_in and f.decl(x['d']).get('k') == 'local':
+                            # guard: the ifs between the accumulation and the row loop
+                            guards = [a for a in f.ancestors(n) if a['k'] == 'if' and a['i'] > L['i']]
+                            diag = bool(guards) and all(unwrap(g['c'])['k'] == 'bin' and unwrap(g['c'])['op'] == '==' for g in guards)
+                            acc.setdefault(x['d'], []).append((m[1], n, diag))
+            for t, lst in acc.items():
+                locs = [(nm, n, dg) for nm, n, dg in lst if nm.endswith('_loc')]
+                if not locs:
+                    continue
+                for nm, n, dg in locs:
+                    partner = nm[:-4] + '_rem'
+                    has = any(x[0] == partner for x in lst)
+                    key = '%s|%s|%s' % ('::'.join(f.q.split('::')[-2:]), f.decl(t)['n'], nm)
+                    if dg and not has:
+                        ck.ob('E.row-sums-cover-remote', key, f.where(n), True, trivial=True)
+                        continue
+                    ck.ob('E.row-sums-cover-remote', key, f.where(n), has, '' if has else
+                          '`%s` is accumulated over the entries of %s (%s) but not over those of %s: the ghost columns of the row are left out' % (
+                              f.decl(t)['n'], nm, f.where(n), partner))
+
+
 def main(tier):
     ck = Check('C12', tier, 'C12 (clauses): all reductions of the distributed solve are global, and communicating loops terminate consistently on all ranks.')
     T = os.path.join(ir.VERIF, 'tus')
@@ -300,7 +366,10 @@ def main(tier):
     rule_B(ck, units)
     rule_C(ck, units)
     rule_D(ck, units)
+    rule_E(ck, units)
     import c11
+    c11.rule_H(ck, units)      # messages are taken from / put at their own slice (shared with C11)
+    c11.rule_G(ck, units)      # transfer operators moved with keep_src stay intact for the next coarsening step (shared with C11)
     c11.rule_F(ck, units)      # global reductions use the operator of the local accumulation (shared with C11)
     ck.assumptions += ['configuration is equal on all ranks', 'convergence, the distributed aggregation being a partition, distributed RAP and the direct coarse solve are not decided']
     return ck.finish()
